@@ -142,7 +142,7 @@ def gen_cases(tier, seed):
                       "nsub": rng.randint(2, 4), "nmsg": rng.choice([200, 500, 1200]), "timeout": 60})
     # back-pressure: receivers with a small receive buffer that read slowly while frames far larger than the
     # free send-buffer space are forwarded to them (the manager has to wait for room inside one frame)
-    for i in range(12 if tier == "quick" else 300):
+    for i in range(16 if tier == "quick" else 300):
         cases.append({"kind": "pressure", "seed": rng.getrandbits(32), "tc": i % 3 == 2, "npub": rng.randint(1, 3),
                       "nbig": rng.randint(6, 20), "rcvbuf": rng.choice([4096, 16384, 65536]),
                       "chunk": rng.choice([1000, 8192, 65536]), "nap": rng.choice([0.0005, 0.002, 0.005]),
@@ -498,19 +498,68 @@ def run_pressure(case):
         ths = [threading.Thread(target=worker, args=(i, p), daemon=True) for i, p in enumerate(pubs)]
         for t in ths:
             t.start()
+        # the slow readers speed up after a bounded slow phase, so the whole exchange finishes in bounded time
+        t_slow_end = time.time() + 4.0
         for t in ths:
-            t.join(60)
+            while t.is_alive():
+                t.join(0.2)
+                if time.time() > t_slow_end:
+                    for sc in slow:
+                        sc.fast = True
+                if time.time() > t_slow_end + 80:
+                    break
         for sc in slow:
             sc.fast = True
-        end = time.time() + 30
-        while time.time() < end:
-            time.sleep(0.2)
-            if (all(inq_empty(s) for s in rig._modules_sockets()) and rig.outq_empty(0.5)
-                    and all(time.time() - sc.last_rx > 0.4 for sc in slow)):
-                break
-        rig.wait_rounds(2, 2.0)
-        rig.settle(5.0)
-        time.sleep(0.3)
+        problems = []
+        if any(t.is_alive() for t in ths):
+            problems.append("publisher threads still blocked in send after the slow phase ended")
+
+        def fence(tag):
+            """every publisher sends a request and waits for its acknowledgement: the single-threaded manager has then
+            finished (written out) everything those publishers sent before; after that every receiver reads until
+            nothing is in flight any more. Logical, not timed: the generous limits only guard against a hang."""
+            for idx, wc in enumerate(pubs):
+                try:
+                    before = sum(1 for f in wc.frames()[0] if f.msg_type == W.MT_ACK)
+                    wc.send_frame(W.MT_SUBSCRIBE, W.p_sub(4990 + idx), src_mod=40 + idx)
+                except (OSError, W.ParseError) as e:
+                    problems.append(f"{tag}: fence request of p{idx} failed: {e!r}")
+                    continue
+                end = time.time() + 60
+                while time.time() < end:
+                    try:
+                        if sum(1 for f in wc.frames()[0] if f.msg_type == W.MT_ACK) > before:
+                            break
+                    except W.ParseError:
+                        break
+                    time.sleep(0.01)
+                else:
+                    problems.append(f"{tag}: no acknowledgement for the fence request of p{idx} within 60 s")
+            if not rig.outq_empty(60.0):
+                problems.append(f"{tag}: manager-side send queues did not drain within 60 s")
+            end = time.time() + 60
+            while time.time() < end:
+                if all(inq_empty(sc.sock) for sc in slow) and all(time.time() - sc.last_rx > 0.15 for sc in slow):
+                    break
+                time.sleep(0.05)
+            else:
+                problems.append(f"{tag}: slow receivers still had unread data after 60 s")
+            rig.settle(10.0)
+
+        fence("after the large frames")
+        # everybody has caught up: a few small frames now reach every receiver, so a sequence number that was used up
+        # by a frame that never went out (or a frame cut short) becomes visible in what follows it
+        for idx, wc in enumerate(pubs):
+            for n in range(3):
+                pid = PUB_BASE + idx * 1_000_000 + 900_000 + n
+                data = W.frame_bytes(1234, pub_payload(pid, 8), timecode=rig.timecode, msg_count=0, send_time=float(pid),
+                                     src_mod=40 + idx, reserved=pid & 0xFFFFFFFF)
+                registry[pid] = {"id": pid, "by": f"p{idx}", "key": W.parse_frames(data, rig.timecode)[0][0].key()}
+                try:
+                    wc.send_raw(data)
+                except OSError:
+                    pass
+        fence("after the closing probes")
         if not rig.alive():
             return {"violations": [{"mech": "manager_died", "detail": (rig.crash or "ended")[-800:]}], "counters": {}}
         streams = {}
@@ -524,6 +573,8 @@ def run_pressure(case):
         res = judge_streams(streams, {wc.label: (None, wc.eof) for wc in allc},
                             lambda f: registry.get(f.pid), loggers={"w0"} if case["slow_logger"] else ())
         res["sig"] = sig_of(case)
+        if problems:
+            res["inconclusive"] = "; ".join(problems[:3])
         res["counters"]["pressure_cases"] = 1
         res["counters"]["pressure_big_frames_to_slow_receivers"] = sum(
             1 for sc in slow for f in streams[sc.label]["frames"] if f.nbytes >= 70_000)
